@@ -231,6 +231,12 @@ theorem bookSlot_inv (e : Env) (σ : St) (r : Nat) (i : Int) (t : Nat) (wf : WF 
       · rw [hx]; exact hlf
     · exact h.leafTask r' i' x
 
+theorem foldl_inv {α β : Type} (P : β → Prop) (f : β → α → β) (l : List α) (b : β) (hb : P b)
+    (hf : ∀ b a, P b → P (f b a)) : P (l.foldl f b) := by
+  induction l generalizing b with
+  | nil => exact hb
+  | cons x xs ih => exact ih (f b x) (hf b x hb)
+
 /-- offsets handed to `reserve` are inside the slot -/
 structure WalkOk (e : Env) (t : Nat) (w : Walk) : Prop where
   off_nonneg : 0 ≤ w.offset
@@ -247,35 +253,56 @@ theorem bookResource_eq (e : Env) (σ : St) (t : Nat) (w : Walk) (r : Nat) :
       if available e (reserveStep σ w r) r w.cur && taskLimitsOk e (reserveStep σ w r) t w.cur r
       then bookSlot e (reserveStep σ w r) r w.cur t else (reserveStep σ w r, 0) := rfl
 
+theorem reserveAt_inv (e : Env) (σ : St) (r : Nat) (i : Int) (off : Rat) (h : Inv e σ)
+    (h0 : 0 ≤ off) (h1 : off ≤ (e.G : Rat)) : Inv e (reserveAt σ r i off) := by
+  unfold reserveAt
+  refine ⟨?_, ?_, h.cnt, ?_⟩
+  rotate_left 2
+  · intro r' i' x
+    simp only [Ledger.get_set]
+    split
+    · intro hx
+      have : x ∈ (σ.led.get r i).usage := by
+        unfold Slot.reserve at hx; split at hx <;> exact hx
+      exact h.leafTask r i x this
+    · exact h.leafTask r' i' x
+  · intro r' i'
+    simp only [Ledger.get_set]
+    split
+    · exact reserve_inv e.G _ _ h0 h1 (h.slot r i)
+    · exact h.slot r' i'
+  · intro r' i'
+    simp only [Ledger.get_set]
+    split
+    · rename_i heq
+      intro hne
+      have : (σ.led.get r i).usage ≠ [] := by
+        unfold Slot.reserve at hne; split at hne <;> exact hne
+      rw [← heq.1, ← heq.2]; exact h.shift r i this
+    · exact h.shift r' i'
+
 theorem reserveStep_inv (e : Env) (σ : St) (t : Nat) (w : Walk) (r : Nat) (h : Inv e σ) (hw : WalkOk e t w) :
     Inv e (reserveStep σ w r) := by
   unfold reserveStep
   split
-  · refine ⟨?_, ?_, h.cnt, ?_⟩
-    rotate_left 2
-    · intro r' i' x
-      simp only [Ledger.get_set]
-      split
-      · intro hx
-        have : x ∈ (σ.led.get r w.cur).usage := by
-          unfold Slot.reserve at hx; split at hx <;> exact hx
-        exact h.leafTask r w.cur x this
-      · exact h.leafTask r' i' x
-    · intro r' i'
-      simp only [Ledger.get_set]
-      split
-      · exact reserve_inv e.G _ _ hw.off_nonneg hw.off_le (h.slot r w.cur)
-      · exact h.slot r' i'
-    · intro r' i'
-      simp only [Ledger.get_set]
-      split
-      · rename_i heq
-        intro hne
-        have : (σ.led.get r w.cur).usage ≠ [] := by
-          unfold Slot.reserve at hne; split at hne <;> exact hne
-        rw [← heq.1, ← heq.2]; exact h.shift r w.cur this
-      · exact h.shift r' i'
+  · exact reserveAt_inv e σ r w.cur w.offset h hw.off_nonneg hw.off_le
   · exact h
+
+/-- the busiest member's usage lies inside the slot -/
+theorem teamCommon_bounds (e : Env) (σ : St) (cur : Int) (sel : List Nat) (wf : WF e) (h : Inv e σ) :
+    0 ≤ teamCommon σ cur sel ∧ teamCommon σ cur sel ≤ (e.G : Rat) := by
+  unfold teamCommon
+  apply foldl_inv (fun m => 0 ≤ m ∧ m ≤ (e.G : Rat)) _ sel 0 ⟨Rat.le_refl, G_rat_nonneg wf⟩
+  intro m r hm
+  have h1 := (h.slot r cur).used_nonneg
+  have h2 := (h.slot r cur).used_le
+  constructor <;> grind
+
+theorem levelTeam_inv (e : Env) (σ : St) (cur : Int) (sel : List Nat) (wf : WF e) (h : Inv e σ) :
+    Inv e (levelTeam σ cur sel) := by
+  unfold levelTeam
+  obtain ⟨h0, h1⟩ := teamCommon_bounds e σ cur sel wf h
+  exact foldl_inv (fun acc => Inv e acc) _ sel σ h (fun acc r ha => reserveAt_inv e acc r cur _ ha h0 h1)
 
 theorem bookResource_inv (e : Env) (σ : St) (t : Nat) (w : Walk) (r : Nat) (wf : WF e) (h : Inv e σ)
     (hlf : (e.taskD t).leaf = true) (hw : WalkOk e t w) : Inv e (bookResource e σ t w r).1 := by
@@ -296,12 +323,6 @@ theorem rat_div_nonneg (a b : Rat) (ha : 0 ≤ a) (hb : 0 < b) : 0 ≤ a / b := 
   apply Rat.mul_nonneg ha
   have := Rat.inv_pos.mpr hb
   grind
-
-theorem foldl_inv {α β : Type} (P : β → Prop) (f : β → α → β) (l : List α) (b : β) (hb : P b)
-    (hf : ∀ b a, P b → P (f b a)) : P (l.foldl f b) := by
-  induction l generalizing b with
-  | nil => exact hb
-  | cons x xs ih => exact ih (f b x) (hf b x hb)
 
 @[simp] theorem setT_led (σ : St) (t : Nat) (x : TSt) : (σ.setT t x).led = σ.led := rfl
 @[simp] theorem setT_cnt (σ : St) (t : Nat) (x : TSt) : (σ.setT t x).cnt = σ.cnt := rfl
@@ -346,7 +367,12 @@ theorem bookResources_inv (e : Env) (σ : St) (t : Nat) (w : Walk) (wf : WF e) (
     · exact h
     · split
       · exact h
-      · have hacc := bookAll_inv e σ t _ (selectedOf e σ t w) wf h hlf hw'
+      · have hL : Inv e (leveled e σ t w.cur (selectedOf e σ t w)) := by
+          unfold leveled
+          split
+          · exact levelTeam_inv e σ w.cur _ wf h
+          · exact h
+        have hacc := bookAll_inv e _ t _ (selectedOf e σ t w) wf hL hlf hw'
         split
         · exact markStart_inv e _ t _ hacc
         · exact hacc
